@@ -474,3 +474,37 @@ def rebase_that_drops_every_commit_keeps_pending_work():
         finally:
             s.destroy()
     return sorted(set(kinds_all)), detail[:6]
+
+
+def pull_rebase_stopped_on_a_conflict_then_continued():
+    """D92: local commits X (a person's change to f.txt that conflicts with upstream) and Y (an agent's line in g.txt); `git pull --rebase`
+    stops on the conflict in X; resolve, `git add`, `git rebase --continue` => the rebased Y has no note and the agent's line is a
+    person's (the pull does not log a rebase start, so `--continue` is taken for a new rebase whose original head is the detached
+    mid-rebase HEAD)."""
+    import os
+    s = _mk("d92", files=2)
+    try:
+        f0 = [s.line("human") for _ in range(3)]; g0 = [s.line("human") for _ in range(3)]
+        s.human_write("f.txt", f0); s.human_write("g.txt", g0); s.commit_all("init")
+        origin = s.ensure_origin()
+        s.w.git("push", "-q", "origin", "main", plain=True, tick=False)
+        s.w.git("branch", "--set-upstream-to=origin/main", plain=True, tick=False)
+        other = os.path.join(s.w.root, "other")
+        s.w.git("clone", "-q", origin, other, plain=True, tick=False, cwd=s.w.root)
+        up = s.line("human")
+        s.w.write_bytes("f.txt", ("\n".join([f0[0], up] + f0[2:]) + "\n").encode(), other)
+        s.w.git("commit", "-qam", "upstream changes line 2", plain=True, tick=True, cwd=other)
+        s.w.git("push", "-q", "origin", "main", plain=True, tick=False, cwd=other)
+        mine = s.line("human")
+        s.human_write("f.txt", [f0[0], mine] + f0[2:]); s.commit_all("X: a person changes line 2 too")
+        s.ai_write("S1", "g.txt", g0 + [s.line("S1")]); s.commit_all("Y: agent line in g")
+        s.check_notes("before pull")
+        p = s.g("pull", "--rebase", "-q")
+        if not s.in_progress():
+            return ["harness:no-conflict"], []
+        s.write("f.txt", [f0[0], mine] + f0[2:])
+        s.g("add", "f.txt")
+        s.g("rebase", "--continue")
+        return _final(s)
+    finally:
+        s.destroy()
